@@ -412,8 +412,8 @@ def run(ctx, pid):
         if res is None:
             return rep.finish()
         witnesses(ctx, pid, K_MID3)
-        n = replay_graph(ctx, pid, K_SMALL, rep, max_walks=1500, label="graph")
-        n += replay_graph(ctx, pid, K_CAP, rep, max_walks=400, label="graph_capacity")
+        n = replay_graph(ctx, pid, K_SMALL, rep, max_walks=1200, label="graph")
+        n += replay_graph(ctx, pid, K_CAP, rep, max_walks=300, label="graph_capacity")
         if pid == "C12":
             n += replay_graph(ctx, pid, K_KS, rep, max_walks=250, label="graph_keyspace", prefer=_publish_after_shutdown_window)
         validate_recorded(ctx, pid, K_MID3, 150, rep)
